@@ -82,7 +82,7 @@ pub fn eval(op: &str, a: &[&str]) -> Option<String> {
             }
             "ok".into()
         }
-        "p.c04.sound" => {
+        "p.c04.sound" | "p.c04.sound.opt-cycle" | "p.c04.sound.ref-over-record-cycle" => {
             // subtype(t, t') accepted  =>  every v : t, encoded at t, decodes at t' to a value the annotator accepts at t'
             let env = env_from_sx(a[0]); let t = T::from_sx(&sx::parse(a[1])); let t2 = T::from_sx(&sx::parse(a[2])); let v = V::from_sx(&sx::parse(a[3]));
             if !sub(&env, &t, &t2) { return Some("ok".into()); }
@@ -101,7 +101,7 @@ pub fn eval(op: &str, a: &[&str]) -> Option<String> {
             let env = env_from_sx(a[0]); let t = T::from_sx(&sx::parse(a[1])); let t2 = T::from_sx(&sx::parse(a[2]));
             if sub(&env, &t, &t2) { "1".into() } else { "0".into() }
         }
-        "p.c04.chain" => {
+        "p.c04.chain" | "p.c04.chain.opt-cycle" | "p.c04.chain.ref-over-record-cycle" => {
             // t <: t' <: t'': decoding via t' and re-encoding differs from decoding directly at t'' only by opt ~ null
             let env = env_from_sx(a[0]);
             let (t, t1, t2) = (T::from_sx(&sx::parse(a[1])), T::from_sx(&sx::parse(a[2])), T::from_sx(&sx::parse(a[3])));
@@ -168,6 +168,17 @@ fn near_miss(r: &mut Rng, v: &V) -> V {
     }
 }
 
+/// does some definition reach itself through `opt` (and names) only?  (type O = opt O: known finding of C04)
+pub fn opt_cycle(env: &Env) -> bool {
+    fn go(env: &Env, t: &T, target: &str, seen: &mut Vec<String>) -> bool {
+        match t {
+            T::Var(x) => { if x == target { return true; } if seen.contains(x) { return false; } seen.push(x.clone()); env.iter().find(|d| &d.0 == x).map_or(false, |d| go(env, &d.1, target, seen)) }
+            T::Opt(x) => go(env, x, target, seen),
+            _ => false,
+        }
+    }
+    env.iter().any(|d| match &d.1 { T::Opt(x) => go(env, x, &d.0, &mut vec![]), T::Var(_) => false, _ => false })
+}
 /// replace every non-negative `int` value (at a position whose declared type is int) by the equal `nat` value
 fn nat_for_int(env: &Env, v: &V, t: &T, fuel: u32) -> V {
     if fuel == 0 { return v.clone(); }
@@ -265,17 +276,27 @@ pub fn generate(prop: &str, thorough: bool, r: &mut Rng, em: &mut Emit) {
                     }
                     // annotate at a mutated type (liberal mode exercises the opt rules)
                     let t2 = mutate_type(r, t, &names, &cfg);
+                    // (a float64 VALUE at a float32 type is converted by the annotator -- that is how float literals of the text
+                    // format get their width; the model has no floating-point rounding, so these are left out)
+                    fn has_f64(v: &V) -> bool { match v { V::F64(_) => true, V::Opt(Some(x)) | V::Variant(_, x) => has_f64(x), V::Vec(xs) => xs.iter().any(has_f64), V::Rec(fs) => fs.iter().any(|f| has_f64(&f.1)), _ => false } }
+                    fn has_f32(t: &T) -> bool { match t { T::Prim("float32") => true, T::Opt(x) | T::Vec(x) => has_f32(x), T::Rec(fs) | T::Variant(fs) => fs.iter().any(|f| has_f32(&f.1)), _ => false } }
+                    if has_f64(v) && (has_f32(&t2) || env.iter().any(|d| has_f32(&d.1))) { em.stat("skipped.float64-value-at-float32"); continue; }
                     em.case_nt("c10.annotate", &["0".into(), es.clone(), t2.sx(), v.sx()], true);
                     em.case_nt("c10.annotate", &["1".into(), es.clone(), t2.sx(), v.sx()], true);
                 }
             }
             _ => { // C04
+                // an opt-only cycle (type O = opt O) makes the decoder try `opt` inside `opt` without end: known finding, own class
+                let oc = opt_cycle(&env);
+                // a reference type whose signature mentions an uninhabited record cycle does not decode at its own type: known finding of C10
+                let rc = has_record_cycle(&env) && (ts.iter().any(|t| has_ref(&env, t, 4)) || env.iter().any(|d| has_ref(&env, &d.1, 4)));
+                let (sound, chain) = if oc { ("p.c04.sound.opt-cycle", "p.c04.chain.opt-cycle") } else if rc { ("p.c04.sound.ref-over-record-cycle", "p.c04.chain.ref-over-record-cycle") } else { ("p.c04.sound", "p.c04.chain") };
                 for (t, v) in ts.iter().zip(&vs) {
                     let t1 = mutate_type(r, t, &names, &cfg);
                     let t2 = mutate_type(r, &t1, &names, &cfg);
-                    em.case_nt("p.c04.sound", &[es.clone(), t.sx(), t1.sx(), v.sx()], true);
-                    em.case_nt("p.c04.sound", &[es.clone(), t.sx(), t2.sx(), v.sx()], true);
-                    em.case_nt("p.c04.chain", &[es.clone(), t.sx(), t1.sx(), t2.sx(), v.sx()], true);
+                    em.case_nt(sound, &[es.clone(), t.sx(), t1.sx(), v.sx()], true);
+                    em.case_nt(sound, &[es.clone(), t.sx(), t2.sx(), v.sx()], true);
+                    em.case_nt(chain, &[es.clone(), t.sx(), t1.sx(), t2.sx(), v.sx()], true);
                     // supertypes by added fields whose types are optional only through names, at ids before / between / after the
                     // wire's; and a required field added under an opt (accepted by the opt rule, answered by null)
                     {
@@ -284,10 +305,10 @@ pub fn generate(prop: &str, thorough: bool, r: &mut Rng, em: &mut Emit) {
                         let es2 = env_sx(&env2);
                         for _ in 0..2 {
                             let t3 = crate::ops::c02::insert_fields(r, t, &extras);
-                            if &t3 != t { em.stat("supertype.inserted-fields"); em.case_nt("p.c04.sound", &[es2.clone(), t.sx(), t3.sx(), v.sx()], true); }
+                            if &t3 != t { em.stat("supertype.inserted-fields"); em.case_nt(sound, &[es2.clone(), t.sx(), t3.sx(), v.sx()], true); }
                             let t4 = T::opt(crate::ops::c02::insert_fields(r, t, &extras));
-                            em.case_nt("p.c04.sound", &[es2.clone(), T::opt(t.clone()).sx(), t4.sx(), V::Opt(Some(Box::new(v.clone()))).sx()], true);
-                            em.case_nt("p.c04.sound", &[es2.clone(), t.sx(), t4.sx(), v.sx()], true);
+                            em.case_nt(sound, &[es2.clone(), T::opt(t.clone()).sx(), t4.sx(), V::Opt(Some(Box::new(v.clone()))).sx()], true);
+                            em.case_nt(sound, &[es2.clone(), t.sx(), t4.sx(), v.sx()], true);
                         }
                     }
                     // the model's view of the same decode: the value must be the spec's coercion
